@@ -2,6 +2,7 @@
 """Prompt for a sub-agent that produces a BEHAVIOUR-PRESERVING refactoring (to test the checks for false alarms)."""
 import json, sys
 pid, ws = sys.argv[1], sys.argv[2]
+variant = sys.argv[3] if len(sys.argv) > 3 else ''
 for l in open('/verif/properties.jsonl'):
     p = json.loads(l)
     if p['id'] == pid:
@@ -20,7 +21,7 @@ it does. Make the kind of clean-up a maintainer might do in a refactoring PR, to
 the property: for example rename local variables, extract or inline a small helper function, reorder independent
 statements, replace an if/else chain by a dict lookup or the other way round, turn a loop into a comprehension, move a
 constant table to module level, replace `a >= b` by `b <= a`, use an equivalent numpy/astropy spelling, add type hints or
-early returns. The observable behaviour (return values, exceptions and their types, warnings, effects on arguments, output
+early returns. {variant} The observable behaviour (return values, exceptions and their types, warnings, effects on arguments, output
 text) must stay EXACTLY the same for every input.
 
 Rules:
